@@ -155,7 +155,8 @@ Definition holds_lagh (c : lhcase) : bool := forallb holds_lagr (lh_calls c).
    == and != matrices, and for every pair of already-hashed objects whether the hashes agree
    (o_heq is reported true for a pair that is not hashed on both sides) *)
 Record hobs := HO { o_flag : res Z; o_terms : list poly;
-                    o_eq : list (list bool); o_ne : list (list bool); o_heq : list (list bool) }.
+                    o_eq : list (list bool); o_ne : list (list bool); o_heq : list (list bool);
+                    o_vals : list Qc   (* HEval: the values under "auto", True, False; [] otherwise *) }.
 Record hcase := HC { hc_ops : list hop; hc_obs : list hobs }.
 Definition matrix (f : poly -> poly -> bool) (l : list poly) : list (list bool) :=
   map (fun p => map (fun q => f p q) l) l.
@@ -167,6 +168,14 @@ Fixpoint corr_steps (s : hstate) (ops : list hop) (obs : list hobs) : bool :=
       let '(s', f) := hstep s op in
       res_eqb Z.eqb (o_flag o) f && list_eqb poly_eqb (o_terms o) (view s') &&
       bmat_eqb (o_eq o) (matrix peq (view s')) && bmat_eqb (o_ne o) (matrix pne (view s')) &&
+      match op, f with
+      | HEval i v, Ok _ =>
+          match nth_error (view s') i with
+          | Some p => list_eqb Qc_eqb (o_vals o) [peval HAuto p v; peval HTrue p v; peval HFalse p v]
+          | None => false
+          end
+      | _, _ => true
+      end &&
       corr_steps s' r ro
   | _, _ => false
   end.
@@ -202,6 +211,13 @@ Definition holds_step (op : hop) (o : hobs) : bool :=
   | HHash l, Ok n =>
       Z.eqb n (Z.of_nat (distinct_count_s (flat_map (fun i => match nth_error ts i with Some p => [p] | None => [] end) l)))
   | HHash _, Raise _ => false
+  | HEval i v, Ok _ =>
+      (* the schemes agree, and give sum c * v^k of the terms the object holds NOW, where defined *)
+      match nth_error ts i, o_vals o with
+      | Some p, [a; h; d] =>
+          Qc_eqb a h && Qc_eqb a d && implb (negb (Qc_eqb v 0) || nonnegb p) (Qc_eqb a (ev p v))
+      | _, _ => false
+      end
   | _, _ => true
   end.
 Fixpoint holds_steps (ops : list hop) (obs : list hobs) : bool :=
